@@ -33,6 +33,8 @@ theorem WF.invS {s : State} (hw : WF s) : InvS s where
   trkNodup := hw.inv.trkNodup
   refOk := hw.inv.refOk
   ownOk := hw.inv.ownOk
+  nestOk := hw.inv.nestOk
+  anonBound := hw.inv.anonBound
   repBound := hw.inv.repBound
 
 /-! ### small updates -/
@@ -51,7 +53,7 @@ theorem wf_newT {s : State} (hw : WF s) {t : Nat} (hd : s.trks t = none) :
   · have := hw.idle; unfold Idle at *; st_simp; grind
   · have := hw.held; unfold Held at *; st_simp; exact this
 
-theorem wf_mkS0 {s : State} (hw : WF s) {v : Nat} (hd : s.slots v = none) :
+theorem wf_mkS0 {s : State} (hw : WF s) {v : Nat} (hd : s.slots v = none) (hnm : v < anonBase) :
     WF (s.setSlot v (some ⟨none, false⟩)) := by
   have h := hw.invS
   refine ⟨InvS.inv (by invs_auto h with [repOf_eq]), ?_, ?_⟩
